@@ -41,7 +41,7 @@ def wr(p, v, k=0):
 
 class Alloc:
     """byte accounting of the table's allocator (allocate<T>(n) / deallocate(p, n))"""
-    def __init__(self, limit_elems=1 << 22): self.live = {}; self.cur = 0; self.peak = 0; self.log = []; self.limit = limit_elems; self.news = []
+    def __init__(self, limit_elems=1 << 22): self.live = {}; self.cur = 0; self.peak = 0; self.log = []; self.limit = limit_elems; self.news = []; self.null_deallocs = 0
     def install(self, it):
         def h_alloc(it_, a):
             es, n = a
@@ -49,6 +49,8 @@ class Alloc:
             o = it_.new_obj("alloc", n); self.live[id(o)] = (o, es * n); self.cur += es * n; self.peak = max(self.peak, self.cur); self.log.append(("allocate", es, n)); return G.Ptr(o, 0)
         def h_dealloc(it_, a):
             p, n = a
+            if isinstance(p, G.Ptr) and p.obj is None and n == 0:
+                self.null_deallocs += 1; return None       # deallocate(nullptr, 0): tolerated (observation only; harmless with std::allocator)
             if not isinstance(p, G.Ptr) or p.obj is None: raise G.MemError("deallocate of a null / non-pointer value %r" % (p,))
             if id(p.obj) not in self.live:
                 raise G.MemError("deallocate of %r: %s" % (p, "double deallocate" if not p.obj.live else "not a block of the allocator"))
@@ -118,7 +120,7 @@ def install_algorithms(it):
         put_string(buf, out[:max(size - 1, 0)])
         return len(out)
     it.hooks["vp_isfinite"] = lambda it_, a: int(a[0].num is not None)
-    it.hooks.update(vp_copy=h_copy, vp_fill=h_fill, vp_fill_null=h_fill_null, vp_fill_n=h_fill_n, vp_key_name=h_key_name, vp_copy_reverse_long_u64=h_copy_rev,
+    it.hooks.update(vp_copy=h_copy, vp_fill=h_fill, vp_fill_null=h_fill_null, vp_fill_n_long=h_fill_n, vp_key_name=h_key_name, vp_copy_reverse_long_u64=h_copy_rev,
                     vp_partial_product_long_u64=h_partial, vp_reverse=h_reverse, vp_product_long_i64=h_product,
                     strlen=lambda it_, a: len(cstring(a[0])), strncmp=lambda it_, a: cmp(a[0], a[1], a[2]), snprintf=h_snprintf)
 
